@@ -5,6 +5,8 @@ import (
 	"encoding/json"
 	"fmt"
 	"strings"
+	"sync"
+	"time"
 
 	ikeCrypto "github.com/free5gc/ike/security/IKECrypto"
 	"github.com/free5gc/ike/security/encr"
@@ -26,6 +28,7 @@ type c10Case struct {
 	CT     string `json:"ciphertext_hex,omitempty"`
 	Hist   []int  `json:"history,omitempty"`
 	Op     int    `json:"op,omitempty"`
+	At     int    `json:"at_read,omitempty"` // overlap: index of the outer call's read of the random source during which the other calls run
 }
 
 func c10Key(n, pat int) []byte {
@@ -61,6 +64,8 @@ func init() {
 			var cs c10Case
 			unmarshalCase(raw, &cs)
 			switch cs.K {
+			case "overlap":
+				c10Overlap(c, cs)
 			case "keysize":
 				c10KeySize(c, cs.Desc, cs.KeyLen)
 			case "encrypt":
@@ -74,6 +79,128 @@ func init() {
 			}
 		},
 	})
+}
+
+// overlapReader lets other calls on the same cipher object run while one Encrypt is waiting for the random
+// source (its read number At): the calls run on another goroutine and the outer read waits for them. If they
+// cannot finish before the outer call does (an implementation that serialises calls with a lock), the wait is
+// given up after a while and they complete afterwards; the verdict never depends on which of the two happened.
+type overlapReader struct {
+	mu    sync.Mutex
+	seam  *engine.Seam
+	at    int
+	reads int
+	armed bool
+	body  func()
+	done  chan struct{}
+}
+
+func (o *overlapReader) Read(p []byte) (int, error) {
+	o.mu.Lock()
+	fire := o.armed && o.reads == o.at
+	if fire {
+		o.armed = false
+	}
+	o.reads++
+	o.mu.Unlock()
+	if fire {
+		o.done = make(chan struct{})
+		go func() { defer close(o.done); o.body() }()
+		select {
+		case <-o.done:
+		case <-time.After(1500 * time.Millisecond):
+		}
+	}
+	o.mu.Lock()
+	defer o.mu.Unlock()
+	return o.seam.Read(p)
+}
+
+// c10Overlap: calls on one cipher object that overlap in time. The object is stateless between calls on the
+// pinned tree; an implementation that parks per-call data (the IV in effect, a scratch block) in the object
+// makes the inner calls use the outer call's data.
+func c10Overlap(c *engine.Ctx, cs c10Case) {
+	c.Evals++
+	kl := ref.EncrKeyLens[cs.Desc]
+	key := c10Key(kl, 2)
+	et := encr.StrToType(univ.EncrName(kl))
+	cr, err := et.NewCrypto(key)
+	if err != nil {
+		c.Violate("right-key-size-refused", errStr(err), cs)
+		return
+	}
+	p0, p1, pB := c10Plain(cs.N, 2), c10Plain(cs.N+3, 2), c10Plain(cs.N+17, 2)
+	seam := engine.NewSeam(nil, nil)
+	seam.Stream = 900 + uint64(cs.At)
+	or := &overlapReader{seam: seam, at: -1}
+	restore := engine.Install(or)
+	defer restore()
+	var ct0, ct1, ctB, backD []byte
+	var e0, e1, eB, eD error
+	var ipi *engine.PanicInfo
+	pi := engine.Catch(func() {
+		ct0, e0 = cr.Encrypt(append([]byte(nil), p0...))
+		if e0 != nil {
+			return
+		}
+		or.mu.Lock()
+		or.at, or.reads, or.armed = cs.At, 0, true
+		or.body = func() {
+			ipi = engine.Catch(func() {
+				ctB, eB = cr.Encrypt(append([]byte(nil), pB...))
+				backD, eD = cr.Decrypt(append([]byte(nil), ct0...))
+			})
+		}
+		or.mu.Unlock()
+		ct1, e1 = cr.Encrypt(append([]byte(nil), p1...))
+		if or.done != nil {
+			<-or.done
+		}
+	})
+	if pi == nil {
+		pi = ipi
+	}
+	if pi != nil {
+		c.Violate(pi.Sig(), "overlapping calls on one cipher object panic: "+pi.Value, cs)
+		return
+	}
+	if or.done == nil {
+		c.Count("overlap_not_reached(fewer reads)", 1)
+		return
+	}
+	if e0 != nil || e1 != nil || eB != nil || eD != nil {
+		c.Violate("overlap/error", fmt.Sprintf("healthy source, overlapping calls on one AES-CBC-%d object: outer Encrypt %v, inner Encrypt %v, inner Decrypt %v", kl*8, e1, eB, eD), cs)
+		return
+	}
+	if !bytes.Equal(backD, p0) {
+		c.Violate("overlap/decrypt-wrong", fmt.Sprintf("Decrypt of an earlier ciphertext while an Encrypt is in progress on the same object returns %x…, want %x…", trunc(backD, 16), trunc(p0, 16)), cs)
+		return
+	}
+	served := seam.Served()
+	for i, x := range []struct {
+		ct, p []byte
+		who   string
+	}{{ct1, p1, "outer"}, {ctB, pB, "inner"}} {
+		_ = i
+		if len(x.ct) < 32 || (len(x.ct)-16)%16 != 0 {
+			c.Violate("overlap/size-law", fmt.Sprintf("%s call: %d octets", x.who, len(x.ct)), cs)
+			return
+		}
+		pt := ref.CBCDecrypt(key, x.ct[:16], x.ct[16:])
+		if len(pt) < len(x.p)+1 || !bytes.Equal(pt[:len(x.p)], x.p) || int(pt[len(pt)-1]) != len(pt)-len(x.p)-1 {
+			c.Violate("overlap/not-textbook-cbc", fmt.Sprintf("%s call's ciphertext does not decrypt to its plaintext under a textbook AES-CBC", x.who), cs)
+			return
+		}
+		if !bytes.Contains(served, x.ct[:16]) {
+			c.Violate("overlap/iv-not-from-source", fmt.Sprintf("%s call: IV %x is not made of octets the source served", x.who, x.ct[:16]), cs)
+			return
+		}
+	}
+	if bytes.Equal(ct1[:16], ctB[:16]) || bytes.Equal(ct1[:16], ct0[:16]) || bytes.Equal(ctB[:16], ct0[:16]) {
+		c.Violate("overlap/iv-repeats", "two of three calls on one object use the same IV on a non-repeating source", cs)
+		return
+	}
+	c.DistinctS(fmt.Sprint("overlap", cs.Desc, cs.N, cs.At))
 }
 
 func runC10(c *engine.Ctx) {
@@ -125,6 +252,16 @@ func runC10(c *engine.Ctx) {
 			}
 			st := engine.Explore(b, 0, func(r *engine.Run) { c10EncryptSeq(c, base, r) }, func(r *engine.Run) {})
 			c.Count("env_executions(sequences)", st.Executions)
+		}
+	}
+	// calls that overlap in time on one object
+	for d := 0; d < 3; d++ {
+		for _, n := range []int{0, 15, 16, 33} {
+			for at := 0; at < 3; at++ {
+				if c.Mine() {
+					c10Overlap(c, c10Case{K: "overlap", Desc: d, KeyLen: ref.EncrKeyLens[d], N: n, At: at})
+				}
+			}
 		}
 	}
 	// negatives
